@@ -26,7 +26,13 @@ type mon struct {
 	match       func(h *net.Header) (bool, bool)
 	drain       *vrt.Thread
 	early       bool // must be closed exactly once (registered before shutdown)
+	regStep     int  // logical step at which MakeHandler returned the identifier
+	closeStep   int  // logical step at which the closer ran (0: never)
 }
+
+// liveAt reports whether the handler was still registered (its close callback
+// had not run) at the given step.
+func (m *mon) liveAt(step int) bool { return m.closerCalls == 0 || m.closeStep > step }
 
 func (m *mon) filter(h *net.Header) (bool, bool) {
 	m.filterCalls++
@@ -38,6 +44,9 @@ func (m *mon) filter(h *net.Header) (bool, bool) {
 
 func (m *mon) closer(err error) {
 	m.closerCalls++
+	if m.closeStep == 0 {
+		m.closeStep = vrt.Step()
+	}
 	m.closerErr = append(m.closerErr, err)
 	if m.queueClosed {
 		vrt.Failf("closer-after-queue-close/"+m.name, "closer invoked after the queue was closed")
@@ -62,6 +71,7 @@ func register(e net.EndPoint, name string, match func(h *net.Header) (bool, bool
 		}
 	})
 	m.id = e.MakeHandler(m.filter, q, m.closer)
+	m.regStep = vrt.Step()
 	return m
 }
 
@@ -324,7 +334,11 @@ func s3(cut int) func() {
 			if late.id == h.id && h.closerCalls == 0 {
 				vrt.Failf("id-reused-before-removal", "late handler got the id of a live handler")
 			}
-			if late.id == g.id {
+			if late.id == g.id && g.closerCalls == 0 {
+				// an identifier is free again once its handler left the table -
+				// by a removal or by the shutdown sweep, whose close callbacks
+				// may still be on their way: only a handler that is never
+				// closed at all still holds its identifier for sure
 				vrt.Failf("id-collision", "late handler shares the id %d of a live handler", g.id)
 			}
 		}
